@@ -25,6 +25,7 @@ from fractions import Fraction
 from typing import Dict, List, Optional, Set, Tuple
 
 from engines import asyncfacts as af
+from engines import c2426facts as cf
 from engines import inline
 from engines import pyfacts as pf
 from engines.common import AnalysisError, Ctx
@@ -146,20 +147,7 @@ def _leaves(fn: pf.FuncDef, e: ast.AST, seen: Tuple[str, ...] = ()) -> Set[str]:
     return {f'unknown:{pf.nsrc(e)[:40]}'}
 
 
-def _def_nodes(cfg: pf.CFG, name: str) -> List[pf.Node]:
-    out = []
-    for n in cfg.nodes:
-        a = n.ast
-        if n.kind != 'stmt' or a is None:
-            continue
-        tg: List[ast.AST] = []
-        if isinstance(a, ast.Assign):
-            tg = list(a.targets)
-        elif isinstance(a, (ast.AnnAssign, ast.AugAssign)):
-            tg = [a.target]
-        if any(isinstance(x, ast.Name) and x.id == name for t in tg for x in ast.walk(t)):
-            out.append(n)
-    return out
+_def_nodes = cf.def_nodes
 
 
 def _alternatives(fn: pf.FuncDef, cfg: pf.CFG, A: pf.Node, arg: ast.AST, depth: int = 3) -> List[ast.AST]:
@@ -198,6 +186,7 @@ class Rec:
         self.now: Optional[str] = None
         self.clock: Optional[str] = None
         self.guard: Optional[Tuple[pf.Node, str]] = None
+        self.inline: Optional[str] = None
 
 
 def _recordings(ctx: Ctx, m: pf.Module, fn: pf.FuncDef, q: str) -> List[Rec]:
@@ -237,7 +226,8 @@ def _recordings(ctx: Ctx, m: pf.Module, fn: pf.FuncDef, q: str) -> List[Rec]:
             unk = sorted(x for x in lv if x.startswith('unknown:'))
             clk = sorted(x for x in lv if x.startswith('clock:'))
             if not clk and not unk:
-                computed.append(pf.nsrc(alt))
+                names = {'entry': 'other entries of the deque', 'param': 'the window / count', 'const': 'constants', 'state': 'stored state'}
+                computed.append(f'`{pf.nsrc(alt)}` (built only from: {", ".join(sorted(names.get(x, x) for x in lv))})')
                 continue
             if clk and not unk:
                 atoms = {f'{c2}()': 'now' for c2 in CLOCKS}
@@ -245,7 +235,7 @@ def _recordings(ctx: Ctx, m: pf.Module, fn: pf.FuncDef, q: str) -> List[Rec]:
                 atoms.update({WINDOW: 'W', f'{ITEMS}[0]': 'head', f'{ITEMS}[-1]': 'last'})
                 lin = af.linear(pf.expand_locals(fn, alt), atoms)
                 if lin is not None and lin != {'now': Fraction(1)}:
-                    offset.append(f'{pf.nsrc(alt)} = {af.lin_str(lin)}')
+                    offset.append(f'`{pf.nsrc(alt)}` (= {af.lin_str(lin)})')
                     continue
                 if lin is not None:
                     clocks |= {x[6:] for x in clk}
@@ -254,7 +244,7 @@ def _recordings(ctx: Ctx, m: pf.Module, fn: pf.FuncDef, q: str) -> List[Rec]:
         if computed or offset:
             what = computed[0] if computed else offset[0]
             ctx.bad('R2', cons + '::clock',
-                    f'the recorded timestamp `{pf.nsrc(arg)}` can be `{what}`, a time computed from other entries / the window, not the clock value at admission: '
+                    f'the recorded timestamp `{pf.nsrc(arg)}` can be {what}, a time computed from other entries / the window, not the clock value at admission: '
                     'the deque no longer holds admission times.  A time earlier than the real admission (slot-free time, woken late) leaves the window early; '
                     'a reservation in the future is shared by every waiter queued behind the same oldest entry (count=1, window=10, five entries at t=0: '
                     f'admissions 0,10,10,10,10).  Either way more than {COUNT} entries are admitted in one window', m.path, A.lineno)
@@ -265,18 +255,20 @@ def _recordings(ctx: Ctx, m: pf.Module, fn: pf.FuncDef, q: str) -> List[Rec]:
                       m.path, A.lineno, detail={'clock': sorted(clocks)})
             if len(clocks) == 1:
                 r.clock = next(iter(clocks))
-            if not isinstance(arg, ast.Name) or arg.id not in cnames:
-                raise AnalysisError(f'{q}: timestamp `{pf.nsrc(arg)}` is a clock read but not through one local defined only by clock reads (idiom not analysed)')
-            r.now = arg.id
-            # freshness: the clock is read on every path to the append, and no suspension lies between the (last) read and the append
-            Ns = [n for n in _def_nodes(cfg, arg.id)]
-            dom = cfg.dominated_by(A, lambda n: any(n is x for x in Ns))
-            stale = [x for x in cfg.nodes if pf.node_has_await(x) and x is not A
-                     and cfg.path_avoiding(x, lambda n: n is A, lambda n: any(n is y for y in Ns)) is not None] if dom else []
-            ctx.check(dom and not stale, 'R2', cons + '::fresh',
-                      (f'`{stale[0].text()}` suspends between the clock read and the append: the entry is recorded with a time older than its admission, leaves the '
-                       f'window early, and more than {COUNT} entries fall into one window') if stale else f'`{arg.id}` is not read on every path to the append',
-                      m.path, A.lineno)
+            if isinstance(arg, ast.Name) and arg.id in cnames:
+                r.now = arg.id
+                # freshness: the clock is read on every path to the append, and no suspension lies between the (last) read and the append
+                Ns = [n for n in _def_nodes(cfg, arg.id)]
+                dom = cfg.dominated_by(A, lambda n: any(n is x for x in Ns))
+                stale = [x for x in cfg.nodes if pf.node_has_await(x) and x is not A
+                         and cfg.path_avoiding(x, lambda n: n is A, lambda n: any(n is y for y in Ns)) is not None] if dom else []
+                ctx.check(dom and not stale, 'R2', cons + '::fresh',
+                          (f'`{stale[0].text()}` suspends between the clock read and the append: the entry is recorded with a time older than its admission, leaves the '
+                           f'window early, and more than {COUNT} entries fall into one window') if stale else f'`{arg.id}` is not read on every path to the append',
+                          m.path, A.lineno)
+            else:
+                # a clock read, but inline / through a copy: freshness and the R3/R4 position rules are stated for one clock local
+                r.inline = pf.nsrc(arg)
         # the caller is let in at the recorded time: nothing suspends between recording and returning
         late = [cfg.nodes[i] for i in sorted(cfg.reachable_from(A)) if cfg.nodes[i] is not A and pf.node_has_await(cfg.nodes[i])]
         ctx.check(not late, 'R2', cons + '::admitted when recorded',
@@ -328,7 +320,8 @@ def _recordings(ctx: Ctx, m: pf.Module, fn: pf.FuncDef, q: str) -> List[Rec]:
         elif undecided:
             raise AnalysisError(f'{consg}: guard not recognised: {undecided[0]}')
         else:
-            ctx.bad('R1', consg, f'`{pf.nsrc(A.ast)}` is not dominated by a test of len({ITEMS}) against {COUNT}: entries are recorded without counting the window',
+            ctx.bad('R1', consg, f'`{pf.nsrc(A.ast)}` is not dominated by a test of len({ITEMS}) against {COUNT}: entries are recorded without counting the window '
+                    f'(more than {COUNT} admissions per window; or, for a timestamp that is not an admission, later entries refused although fewer than {COUNT} were admitted)',
                     m.path, A.lineno)
     # one call records at most one entry
     if apps:
@@ -444,7 +437,18 @@ def _window(ctx: Ctx, m: pf.Module, cls: ast.ClassDef, fn: pf.FuncDef, cfg: pf.C
     """R3 (eviction loop) and R4 (sleep): both are stated relative to the clock local that is recorded."""
     nows = sorted({r.now for r in recs if r.now is not None})
     clocks = sorted({r.clock for r in recs if r.clock is not None})
+    if len(clocks) > 1:
+        ctx.bad('R2', f'{F}::{q}::one clock', f'entries are recorded with different clocks ({", ".join(c + "()" for c in clocks)}): timestamps in the deque are not '
+                'comparable, the eviction test is wrong for one kind', m.path, fn.lineno)
     if not nows:
+        inl = [r for r in recs if r.inline is not None]
+        if inl:
+            for lp0 in [n for n in pf.walk_shallow(fn) if isinstance(n, ast.While) and af.mentions(n.test, f'{ITEMS}[0]')]:
+                oc0 = _other_clock(fn, lp0.test, inl[0].clock, '')
+                if oc0 is not None:
+                    ctx.bad('R3', f'{F}::{q}::eviction loop::clock', f'the eviction condition `{pf.nsrc(lp0.test)}` measures the window with `{oc0}` while the entries are '
+                            f'recorded with {inl[0].clock}(): the two clocks have different epochs, so entries are evicted at once (no limiting) or never', m.path, lp0.lineno)
+            raise AnalysisError(f'{q}: timestamp `{inl[0].inline}` is a clock read but not through one local defined only by clock reads (idiom not analysed)')
         af.blocked(ctx, 'R2', 'R3', 'R4')
         return
     ctx.need(len(nows) == 1, f'{q}: entries are recorded from different clock locals {nows} (R3/R4 are written for one)')
@@ -486,8 +490,7 @@ def _window(ctx: Ctx, m: pf.Module, cls: ast.ClassDef, fn: pf.FuncDef, cfg: pf.C
                   'IndexError once every entry has left the window', m.path, lp.lineno)
         if rest:
             ctx.need(conj.index(rest[0]) < conj.index(cmps[0]), f'{q}: the emptiness test does not precede the head comparison')
-        cmp_x = pf.expand_locals(fn, cmps[0]) if not af.mentions(cmps[0], now) else cmps[0]
-        oc = _other_clock(fn, cmps[0], clock, now) or _other_clock(fn, cmp_x, clock, now)
+        oc = _other_clock(fn, cmps[0], clock, now)
         if oc is not None:
             ctx.bad('R3', consE + '::clock', f'the eviction condition `{pf.nsrc(cmps[0])}` measures the window with `{oc}` while the entries are recorded with {clock}(): '
                     'the two clocks have different epochs, so entries are evicted at once (no limiting) or never (nobody is admitted again)', m.path, lp.lineno)
@@ -548,26 +551,21 @@ def _window(ctx: Ctx, m: pf.Module, cls: ast.ClassDef, fn: pf.FuncDef, cfg: pf.C
         ctx.need(isinstance(c, ast.Call) and pf.dotted(c.func) == 'asyncio.sleep' and len(c.args) == 1 and not c.keywords,
                  f'{q}: suspension `{S.text()}` is not asyncio.sleep(x)')
         amount = pf.resolve_expr(fn, c.args[0])  # type: ignore[union-attr]
-        amount = pf.expand_locals(fn, amount) if not af.mentions(amount, now) else amount
         oc = _other_clock(fn, amount, clock, now)
         if oc is not None:
-            ctx.bad('R4', consS + '::clock', f'the sleep amount `{pf.nsrc(c.args[0])}` is computed with `{oc}` while the entries are recorded with {clock}()',  # type: ignore[union-attr]
-                    m.path, S.lineno)
+            ctx.bad('R4', consS + '::clock', f'the sleep amount `{pf.nsrc(amount)}` is computed with `{oc}` while the entries are recorded with {clock}(): '
+                    'the difference of two clocks is not the time until the oldest entry leaves the window', m.path, S.lineno)
         else:
             lin = af.linear(amount, {f'{ITEMS}[0]': 'head', now: 'now', WINDOW: 'W'})
-            if lin is None:
-                amount2 = pf.resolve_expr(fn, c.args[0])  # type: ignore[union-attr]
-                lin = af.linear(amount2, {f'{ITEMS}[0]': 'head', now: 'now', WINDOW: 'W'})
-                amount = amount2
             ctx.need(lin is not None, f'{q}: sleep amount `{pf.nsrc(amount)}` is not linear in head / {now} / {WINDOW}')
             ctx.check(lin == WANT, 'R4', consS + f'::amount `{pf.nsrc(amount)}`',
                       f'sleeps {af.lin_str(lin)} seconds; the time until the oldest entry leaves the window is head - now + W '  # type: ignore[arg-type]
                       '(longer: not admitted as soon as possible; shorter: busy re-testing)', m.path, S.lineno)
         # reached only when refused, and the clock is re-read before any admission
         if guards:
-            def refusing(a: pf.Node, b: pf.Node, lab: str) -> bool:
+            def not_refusing(a: pf.Node, b: pf.Node, lab: str) -> bool:
                 return not any(a is T and lab in ('T', 'F') and lab != gl for T, gl in guards)
-            free = cfg.path_avoiding(cfg.entry, lambda n: n is S, lambda n: False, edge_ok=refusing)
+            free = cfg.path_avoiding(cfg.entry, lambda n: n is S, lambda n: False, edge_ok=not_refusing)
             ctx.check(free is None, 'R4', consS + '::only when refused', 'the sleep is also executed by entries that were not refused by the admission test',
                       m.path, S.lineno)
         back = af.must_pass(cfg, S, lambda n: any(n is a for a in apps) or n is cfg.exit, lambda n: n is N)
